@@ -99,6 +99,9 @@ def tok3 (start stop : Int) (value : List Nat) : Int × Int × List Nat := (star
 /-- `range(a, b)` -/
 def range (a b : Int) : List Int := (List.range (b - a).toNat).map (fun (i : Nat) => a + (i : Int))
 
+/-- `Float(start, end, value)` / `Integer(start, end, value)`: which of the two, and the arguments -/
+def tokNum (isFloat : Bool) (start stop : Int) (value : List Nat) : Bool × Int × Int × List Nat := (isFloat, start, stop, value)
+
 /-- a token constructor call `Cls(start, end)` read as the pair of its arguments -/
 def tok2 (start stop : Int) : Int × Int := (start, stop)
 
